@@ -204,7 +204,9 @@ pub proof fn lemma_ifft_upto_scale(s: Seq<Sv>, c: u16, dist: int, delta: int, sk
     if dist > 1 {
         lemma_pow2_half(dist);
         assert(2 * (dist / 2) == dist);
-        if dist / 2 > 1 { lemma_half_block(s.len() as int, dist / 4); lemma_pow2_half(dist / 2); assert(4 * (dist / 4) == dist); assert(2 * (dist / 4) == dist / 2); }
+        // order matters for stability: 4 * (dist / 4) == dist is the precondition of lemma_half_block (the aarch64 view found the
+        // old order - lemma call first - to depend on solver luck)
+        if dist / 2 > 1 { lemma_pow2_half(dist / 2); assert(2 * (dist / 4) == dist / 2); assert(4 * (dist / 4) == dist); lemma_half_block(s.len() as int, dist / 4); }
         lemma_ifft_upto_scale(s, c, dist / 2, delta, skew, n);
         let s1 = ifft_upto(s, dist / 2, delta, skew);
         lemma_ifft_layer_scale(s1, c, dist / 2, delta, skew, n);
